@@ -99,6 +99,33 @@ func (w *World) verifyUnit(u *Unit) *Exec {
 			}
 		}
 	}
+	// succeeded("F") flags named anywhere in the contract start out false
+	if u.FC != nil {
+		var texts []string
+		for _, c := range u.FC.Ensures {
+			texts = append(texts, c.Text)
+		}
+		for _, ac := range u.FC.AtCalls {
+			texts = append(texts, ac.Clause.Text)
+		}
+		for _, l := range u.FC.Loops {
+			for _, c := range l {
+				texts = append(texts, c.Text)
+			}
+		}
+		for _, t := range texts {
+			for _, m := range succRe.FindAllStringSubmatch(t, -1) {
+				st.heap[e.succFlag(m[1])] = "false"
+			}
+			for _, m := range calledRe.FindAllStringSubmatch(t, -1) {
+				if e.calledNamed == nil {
+					e.calledNamed = map[string]bool{}
+				}
+				e.calledNamed[m[1]] = true
+				st.heap[e.calledFlag(m[1])] = "false"
+			}
+		}
+	}
 	fr.entry = st.clone()
 	env := &SpecEnv{e: e, fr: fr, st: st, old: fr.entry, vars: fr.params, oldVars: fr.params}
 	if u.FC != nil {
@@ -190,7 +217,7 @@ func (e *Exec) frameFormula(fr *Frame, st *State, h string) (string, bool) {
 	if fr.fc == nil || fr.fc.ModAll || fr.fc.Flags["noframe"] != "" || fr.entry == nil {
 		return "", false
 	}
-	if h == "G_alloc" || h == "G_clock" || h == "GU_broadcasts" || strings.HasPrefix(h, "G_visited") {
+	if h == "G_alloc" || h == "G_clock" || h == "GU_broadcasts" || strings.HasPrefix(h, "G_visited") || strings.HasPrefix(h, "GS_") {
 		return "", false
 	}
 	cur := e.hget(st, h)
